@@ -56,8 +56,9 @@ func TestRaceD16ExpireUnderReadLock(t *testing.T) {
 	wg.Wait()
 }
 
-// D46: Location.Control() lazily writes loc.control under a read lock.
-func TestRaceD46ControlLazyInit(t *testing.T) {
+// D46 (repaired): Location.Control() lazily wrote loc.control under a read lock. Regression: run under -race by
+// `tools/replay.sh core fixedrace`, no race may be reported.
+func TestFixedRaceD46ControlLazyInit(t *testing.T) {
 	_, loc := indexedLoc(t, "race46")
 	loc.SetControl(nil) // back to "use the default": the next Control() calls initialise it lazily
 	var wg sync.WaitGroup
